@@ -99,6 +99,10 @@ def mkarg(tok):
         return so.mkvec_float(tok[2:]).scale(0.07)
     if tok.startswith("F:"):
         return float(tok[2:])
+    if tok.startswith("W:"):          # explicit vector with numpy.float64 coordinates (IEEE semantics in the interpreter too): W:<name>=<value>,...
+        import numpy
+        import vector
+        return vector.obj(**{kv.split("=")[0]: numpy.float64(kv.split("=")[1]) for kv in tok[2:].split(",")})
     if tok.startswith("V:"):          # explicit vector: V:<name>=<value>,...
         import vector
         return vector.obj(**{kv.split("=")[0]: float(kv.split("=")[1]) for kv in tok[2:].split(",")})
@@ -125,6 +129,32 @@ def closeness_jobs(r, tier):
             a = [x * scale if GENNAME.get(nm, nm) not in ("phi", "theta", "eta") else x for x, nm in zip(vals, names)]
             b = [x * (1 + rel) + absd for x in a]
             jobs.append((CLOSE_SRC, ["V:" + ",".join(f"{n}={x!r}" for n, x in zip(names, a)), "V:" + ",".join(f"{n}={x!r}" for n, x in zip(names, b))]))
+    return jobs
+
+
+SING_SRC3 = ("def f(v, w):\n    return (v.x, v.y, v.rho, v.phi, v.z, v.theta, v.eta, v.costheta, v.cottheta, v.mag, v.mag2, v.deltaeta(w), v.deltaR(w), v.deltaangle(w),"
+             " v.to_xyz(), v.to_rhophieta(), v.to_xytheta(), v.unit(), v.is_parallel(w), v.dot(w))\n")
+SING_SRC4 = ("def f(v, w):\n    return (v.eta, v.theta, v.t, v.tau, v.beta, v.gamma, v.rapidity, v.mag, v.tau2, v.is_timelike(), v.is_lightlike(), v.is_spacelike(),"
+             " v.to_xyzt(), v.to_rhophietatau(), v.to_beta3(), v.unit(), v.deltaR(w), v.dot(w), v.boostZ(beta=0.5))\n")
+SING_SRC2 = "def f(v, w):\n    return (v.x, v.y, v.rho, v.phi, v.rho2, v.unit(), v.deltaphi(w), v.to_xy(), v.to_rhophi(), v.rotateZ(0.5), v.dot(w), v.is_parallel(w))\n"
+
+
+def singular_jobs(r, tier):
+    """SINGULAR operands (exactly on the z axis in theta / eta / z storage, the zero vector, rho = 0, theta = pi, t = 0, tau = 0, light
+    cone): the replacement values of nan_to_num (nan / posinf / neginf) are part of what a compiled function must reproduce; compared
+    with the interpreter including the positions of inf and NaN"""
+    jobs = []
+    w3, w4, w2 = "V:x=1.5,y=-2.0,z=0.75", "V:x=1.5,y=-2.0,z=0.75,t=9.0", "V:x=1.5,y=-2.0"
+    sing3 = ["x=3.0,y=4.0,theta=0.0", "x=3.0,y=4.0,theta=3.141592653589793", "rho=5.0,phi=0.3,theta=0.0", "rho=0.0,phi=0.3,z=2.0", "rho=0.0,phi=0.3,eta=1.0", "x=0.0,y=0.0,z=0.0",
+             "x=0.0,y=0.0,z=-2.0", "rho=0.0,phi=0.0,theta=1.0", "x=0.0,y=0.0,eta=0.5", "rho=2.0,phi=3.141592653589793,z=0.0", "x=-1.0,y=0.0,z=0.0", "px=3.0,py=4.0,theta=0.0"]
+    sing4 = ["x=3.0,y=4.0,theta=0.0,t=10.0", "x=0.0,y=0.0,z=0.0,t=0.0", "x=0.0,y=0.0,z=0.0,t=5.0", "x=3.0,y=4.0,z=0.0,t=5.0", "x=3.0,y=4.0,z=12.0,tau=0.0", "rho=0.0,phi=0.0,eta=0.0,tau=2.0",
+             "x=1.0,y=2.0,z=2.0,t=0.0", "pt=0.0,phi=0.0,eta=0.0,mass=0.0", "x=3.0,y=4.0,theta=0.0,tau=1.0", "rho=5.0,phi=0.1,theta=3.141592653589793,t=10.0", "x=1.0,y=2.0,z=2.0,t=-4.0"]
+    sing2 = ["x=0.0,y=0.0", "rho=0.0,phi=1.0", "x=-1.0,y=0.0", "rho=2.0,phi=3.141592653589793", "x=-1.0,y=-0.0", "px=0.0,py=0.0"]
+    for toks, src, w in ((sing3, SING_SRC3, w3), (sing4, SING_SRC4, w4), (sing2, SING_SRC2, w2)):
+        for t_ in (toks if tier == "thorough" else r.sample(toks, min(len(toks), 5))):
+            wtok = w.replace("x=", "px=").replace(",y=", ",py=") if t_.startswith(("px", "pt")) else w
+            wtok = wtok.replace(",z=", ",pz=").replace(",t=", ",E=") if t_.startswith(("px", "pt")) else wtok
+            jobs.append((src, ["W:" + t_, "W:" + wtok[2:]], "numpy-errors"))
     return jobs
 
 
@@ -270,7 +300,8 @@ def api_jobs(r, tier, only=None, constructors=True, types=None):
 
 def probe_worker(job):
     """compile and run one probe in a fresh process: (source, operands) -> description of (type, values) for njit and interpreter"""
-    src, toks = job
+    src, toks = job[0], job[1]
+    njit_kw = {"error_model": "numpy"} if len(job) > 2 and job[2] == "numpy-errors" else {}
     import numba
     import vector
     from harness import symobj as so
@@ -291,7 +322,7 @@ def probe_worker(job):
     except Exception as e:  # noqa: BLE001
         interp = ("raises", type(e).__name__)
     try:
-        comp = desc(numba.njit(f)(*args))
+        comp = desc(numba.njit(f, **njit_kw)(*args))
     except Exception as e:  # noqa: BLE001
         comp = ("raises", "TypingError" if "Typing" in type(e).__name__ else type(e).__name__)
     return src, toks, interp, comp
@@ -492,6 +523,7 @@ def correspondence(ctx):
             jobs.append((src, toks))
     jobs.append(("def f(v, w):\n    return v.add(w)\n", ["g:xy:-:-:1", "m:rhophi:-:-:2"]))       # the known finding, for the record
     jobs += closeness_jobs(r, ctx.tier)
+    jobs += singular_jobs(r, ctx.tier)
     ajobs, n_api_expr, untemplated = api_jobs(r, ctx.tier)
     with mp.get_context("spawn").Pool(min(14, os.cpu_count() or 4)) as pool:
         results = pool.map(probe_worker, jobs)
@@ -531,7 +563,7 @@ def correspondence(ctx):
             fails.append({"key": "numba-awkward-probe", "what": dis[-1][:300], "code": None})
     known = 0
     for src, toks, interp, comp in results:
-        mixed = len({t[2:][0] if t.startswith("B:") else t[0] for t in toks if not t.startswith(("T:", "V:"))}) > 1
+        mixed = len({t[2:][0] if t.startswith("B:") else t[0] for t in toks if not t.startswith(("T:", "V:", "W:"))}) > 1
         if not same(interp, comp):
             if mixed:
                 known += 1
